@@ -1419,55 +1419,118 @@ def _coq_sites(name: str, sites: list[tuple[int, str, str, str]]) -> str:
     return f'Definition {name} : list fsite := [\n{body}\n].'
 
 
-def _snd_stack_census(fn: ast.FunctionDef, parse_one: ast.FunctionDef, init: ast.FunctionDef) -> tuple[list, list]:
+def _self_attr(e: ast.AST) -> str | None:
+    return e.attr if isinstance(e, ast.Attribute) and isinstance(e.value, ast.Name) and e.value.id == 'self' else None
+
+
+def _strip_test(e: ast.AST) -> ast.AST:
+    """The object a test looks at: `x`, `not x`, `bool(x)`, `len(x) > 0`, `x is not None`, `x is None` -> x."""
+    while True:
+        if isinstance(e, ast.UnaryOp) and isinstance(e.op, ast.Not):
+            e = e.operand
+        elif isinstance(e, ast.Call) and isinstance(e.func, ast.Name) and e.func.id in ('bool', 'len') and len(e.args) == 1 and not e.keywords:
+            e = e.args[0]
+        elif isinstance(e, ast.Compare) and len(e.ops) == 1:
+            e = e.left
+        else:
+            return e
+
+
+def _ends_in_return(body: list[ast.stmt]) -> bool:
+    return bool(body) and isinstance(body[-1], ast.Return) and body[-1].value is None
+
+
+def _early_return_to_else(stmts: list[ast.stmt]) -> list[ast.stmt]:
+    """`if c: A; return` followed by B  ==  `if c: A  else: B` (recursively); statements after a bare `return` are dropped."""
+    out: list[ast.stmt] = []
+    for i, st in enumerate(stmts):
+        if isinstance(st, ast.If) and not st.orelse and _ends_in_return(st.body):
+            new = ast.If(test=st.test, body=_early_return_to_else(st.body[:-1]) or [ast.Pass()], orelse=_early_return_to_else(stmts[i + 1:]))
+            ast.copy_location(new, st)
+            out.append(new)
+            return out
+        if isinstance(st, ast.If):
+            new = ast.If(test=st.test, body=_early_return_to_else(st.body), orelse=_early_return_to_else(st.orelse))
+            ast.copy_location(new, st)
+            out.append(new)
+            continue
+        out.append(st)
+    return out
+
+
+def _snd_stack_census(fn: ast.FunctionDef, parse_one: ast.FunctionDef, init: ast.FunctionDef) -> tuple[list, list, dict]:
     """Writer: (block name written, attribute guarding the block, attribute serialised into it).
-    Reader: (block name looked up, attribute the result is stored in)."""
-    def self_attr(e: ast.AST) -> str | None:
-        return e.attr if isinstance(e, ast.Attribute) and isinstance(e.value, ast.Name) and e.value.id == 'self' else None
+    Reader: (block name looked up, attribute the result is stored in).
+    Third result: the ASTs the executable model (Fmt/SndStacks.v) is generated from."""
+    self_attr = _self_attr
     written: list[tuple[str, str, str]] = []
+    blocks_ast: list[tuple[str, ast.AST, ast.AST, int, bool]] = []      # name, guard test, source, line, inside the v2 block
+    v2_ifs: list[ast.If] = []
+    v2_text: list[str] = []          # constant text written by export outside stack blocks
 
     def block_name(text: str) -> str | None:
         m = re.fullmatch(r'\s*([A-Za-z_]+)\s*\{\s*', text)
         return m.group(1) if m else None
 
-    def scan(stmts: list[ast.stmt]) -> None:
+    def has_serialise(n: ast.AST) -> bool:
+        return any(isinstance(x, ast.Attribute) and x.attr == 'serialise' for x in ast.walk(n))
+
+    def const_writes(stmts: list[ast.stmt]) -> list[str]:
+        out = []
+        for sub in stmts:
+            a = _is_file_write(sub)
+            if a is not None and isinstance(a, ast.Constant) and isinstance(a.value, str):
+                out.append(a.value)
+        return out
+
+    def scan(stmts: list[ast.stmt], in_v2: bool) -> None:
         for st in stmts:
             if isinstance(st, ast.If):
-                guard = self_attr(st.test)
-                names = []
-                srcs = []
-                for sub in st.body:
-                    a = _is_file_write(sub)
-                    if a is not None and isinstance(a, ast.Constant) and isinstance(a.value, str):
-                        b = block_name(a.value)
-                        if b:
-                            names.append(b)
-                    if isinstance(sub, ast.For) and any(isinstance(n, ast.Attribute) and n.attr == 'serialise' for n in ast.walk(sub)):
-                        srcs.append(self_attr(sub.iter) or ast.unparse(sub.iter))
-                if guard and srcs:
-                    if len(names) != 1 or len(srcs) != 1:
+                direct_loops = [sub for sub in st.body if isinstance(sub, ast.For) and has_serialise(sub)]
+                if direct_loops:
+                    guard = self_attr(_strip_test(st.test))
+                    names = [b for b in map(block_name, const_writes(st.body)) if b]
+                    if guard is None or len(names) != 1 or len(direct_loops) != 1 or st.orelse:
                         raise TranslateError(f'sndscript.py: Sound.export line {st.lineno}: operator stack block not recognised')
-                    written.append((names[0], guard, srcs[0]))
-                else:
-                    scan(st.body)
-                    scan(st.orelse)
+                    src = direct_loops[0].iter
+                    written.append((names[0], guard, self_attr(src) or ast.unparse(src)))
+                    blocks_ast.append((names[0], st.test, src, st.lineno, in_v2))
+                    continue
+                texts = const_writes(st.body)
+                is_v2 = any('operator_stacks' in t or 'soundentry_version' in t for t in texts)
+                if is_v2:
+                    v2_ifs.append(st)
+                    v2_text.extend(texts)
+                    scan(st.body, True)
+                    if has_serialise(ast.Module(body=st.orelse, type_ignores=[])):
+                        raise TranslateError(f'sndscript.py: Sound.export line {st.lineno}: stack block in the else branch of the version-2 test')
+                    continue
+                scan(st.body, in_v2)
+                scan(st.orelse, in_v2)
             elif isinstance(st, ast.For):
                 # for name, stack in [('start_stack', self.stack_start), ...]: if not stack: continue; write name; serialise stack
                 if isinstance(st.iter, (ast.List, ast.Tuple)) and isinstance(st.target, ast.Tuple) and len(st.target.elts) == 2 \
-                        and any(isinstance(n, ast.Attribute) and n.attr == 'serialise' for n in ast.walk(st)):
+                        and has_serialise(st):
                     nm_var, st_var = (x.id for x in st.target.elts)
                     ser = [ast.unparse(n.iter) for n in ast.walk(st) if isinstance(n, ast.For) and n is not st]
                     guards = [ast.unparse(n.test) for n in ast.walk(st) if isinstance(n, ast.If)]
                     name_written = any(isinstance(n, ast.FormattedValue) and isinstance(n.value, ast.Name) and n.value.id == nm_var for n in ast.walk(st))
-                    if ser != [st_var] or not name_written or not all(g in (f'not {st_var}', st_var) for g in guards):
+                    if ser != [st_var] or not name_written or len(guards) != 1 or not all(g in (f'not {st_var}', st_var) for g in guards):
                         raise TranslateError(f'sndscript.py: Sound.export line {st.lineno}: operator stack loop not recognised')
                     for el in st.iter.elts:
                         if not (isinstance(el, ast.Tuple) and len(el.elts) == 2 and isinstance(el.elts[0], ast.Constant) and self_attr(el.elts[1])):
                             raise TranslateError(f'sndscript.py: Sound.export line {st.lineno}: operator stack table entry not recognised')
                         written.append((el.elts[0].value, self_attr(el.elts[1]), self_attr(el.elts[1])))
-                elif any(isinstance(n, ast.Attribute) and n.attr == 'serialise' for n in ast.walk(st)):
+                        blocks_ast.append((el.elts[0].value, el.elts[1], el.elts[1], st.lineno, in_v2))
+                elif has_serialise(st):
                     raise TranslateError(f'sndscript.py: Sound.export line {st.lineno}: serialise loop outside a recognised stack block')
-    scan(fn.body)
+            else:
+                a = _is_file_write(st)
+                if a is not None and isinstance(a, ast.Constant) and isinstance(a.value, str) and not in_v2 \
+                        and ('operator_stacks' in a.value or 'soundentry_version' in a.value):
+                    raise TranslateError(f'sndscript.py: Sound.export line {st.lineno}: version-2 keys written outside a test')
+    body = _early_return_to_else(fn.body)
+    scan(body, False)
     # reader: a, b, c = (Keyvalues(stack_name, [... find_children('operator_stacks', stack_name)]) for stack_name in [names]) ; Sound(..., a, b, c, ...)
     read: list[tuple[str, str]] = []
     params = [a.arg for a in init.args.args][1:]
@@ -1479,6 +1542,7 @@ def _snd_stack_census(fn: ast.FunctionDef, parse_one: ast.FunctionDef, init: ast
         raise TranslateError('sndscript.py: Sound.parse_one: constructor call not found')
     arg_of = {ast.unparse(a): p for p, a in zip(params, ctor.args)}
     arg_of.update({ast.unparse(k.value): k.arg for k in ctor.keywords})
+    read_assign = None
     for n in ast.walk(parse_one):
         if isinstance(n, ast.Assign) and isinstance(n.targets[0], ast.Tuple) and isinstance(n.value, ast.GeneratorExp):
             g = n.value.generators[0]
@@ -1487,6 +1551,7 @@ def _snd_stack_census(fn: ast.FunctionDef, parse_one: ast.FunctionDef, init: ast
                 fc = [c for c in ast.walk(n.value.elt) if isinstance(c, ast.Call) and isinstance(c.func, ast.Attribute) and c.func.attr == 'find_children']
                 if len(fc) != 1 or ast.unparse(fc[0].args[-1]) != ast.unparse(g.target):
                     raise TranslateError('sndscript.py: Sound.parse_one: stack lookup not recognised')
+                read_assign = n
                 for tgt, nm in zip(n.targets[0].elts, g.iter.elts):
                     p = arg_of.get(ast.unparse(tgt))
                     if p is None:
@@ -1499,10 +1564,175 @@ def _snd_stack_census(fn: ast.FunctionDef, parse_one: ast.FunctionDef, init: ast
     for n in ast.walk(init):
         if isinstance(n, ast.Assign) and self_attr(n.targets[0]) and isinstance(n.value, ast.Name):
             attr_of[n.value.id] = self_attr(n.targets[0])
+    info = {'blocks_ast': blocks_ast, 'v2_ifs': v2_ifs, 'v2_text': v2_text, 'body': body, 'read_params': list(read), 'attr_of': attr_of,
+            'ctor': ctor, 'params': params, 'read_assign': read_assign}
     # writer attributes are the public names (properties over the private fields the constructor fills)
     read = [(nm, attr_of.get(p, p).lstrip('_')) for nm, p in read]
     written = [(a, b.lstrip('_'), c.lstrip('_')) for a, b, c in written]
-    return written, read
+    return written, read, info
+
+
+_STK = ['SStart', 'SUpdate', 'SStop']
+
+
+def _snd_stack_model(cls: ast.ClassDef, fn: ast.FunctionDef, parse_one: ast.FunctionDef, info: dict) -> tuple[list[str], dict]:
+    """The census Fmt/SndStacks.v runs on: the terms of the test that switches the version-2 keys on, and per stack block its
+    guard term and source; a term is `GForce`, `GTruthy pub s` (truthiness) or `GPresent pub s` (`is not None`), pub = through a
+    LAZY property (one that stores an empty block when the private field is None).  The three stacks are the private fields
+    the reader fills from its first / second / third looked-up block."""
+    read = info['read_params']
+    attr_of = info['attr_of']
+    if len(read) != 3:
+        raise TranslateError(f'sndscript.py: Sound.parse_one reads {len(read)} operator stacks; the model has three')
+    field_of_block = {nm: attr_of.get(p, p) for nm, p in read}          # block name -> attribute the constructor stores it in
+    fields = [field_of_block[nm] for nm, _ in read]
+    if len(set(fields)) != 3:
+        raise TranslateError('sndscript.py: two operator stack blocks are stored in the same attribute')
+    stk_of_field = {f: _STK[i] for i, f in enumerate(fields)}
+    # ---- properties: public name -> (field, lazy)
+    props: dict[str, tuple[str, bool]] = {}
+    for st in cls.body:
+        if isinstance(st, ast.FunctionDef) and any(isinstance(d, ast.Name) and d.id == 'property' for d in st.decorator_list):
+            body = [b for b in st.body if not (isinstance(b, ast.Expr) and isinstance(b.value, ast.Constant))]
+            if not body or not isinstance(body[-1], ast.Return):
+                continue
+            f = _self_attr(body[-1].value) if body[-1].value is not None else None
+            if f not in stk_of_field:
+                if any(_self_attr(n) in stk_of_field for n in ast.walk(st)):
+                    raise TranslateError(f'sndscript.py: property Sound.{st.name} uses a stack field in a way that is not modelled')
+                continue
+            if len(body) == 1:
+                props[st.name] = (f, False)
+                continue
+            ok = False
+            if len(body) == 2 and isinstance(body[0], ast.If) and not body[0].orelse and len(body[0].body) == 1:
+                t, a = body[0].test, body[0].body[0]
+                is_none = isinstance(t, ast.Compare) and len(t.ops) == 1 and isinstance(t.ops[0], ast.Is) and _self_attr(t.left) == f \
+                    and isinstance(t.comparators[0], ast.Constant) and t.comparators[0].value is None
+                empty_kv = isinstance(a, ast.Assign) and len(a.targets) == 1 and _self_attr(a.targets[0]) == f and isinstance(a.value, ast.Call) \
+                    and ast.unparse(a.value.func) == 'Keyvalues' and len(a.value.args) == 2 and isinstance(a.value.args[1], ast.List) \
+                    and not a.value.args[1].elts
+                ok = is_none and empty_kv
+            if not ok:
+                raise TranslateError(f'sndscript.py: property Sound.{st.name} is neither `return self.{f}` nor the lazy empty-block getter')
+            props[st.name] = (f, True)
+
+    def stack_of(e: ast.AST, where: str) -> tuple[str, str]:
+        a = _self_attr(e)
+        if a in stk_of_field:
+            return 'false', stk_of_field[a]
+        if a in props:
+            return ('true' if props[a][1] else 'false'), stk_of_field[props[a][0]]
+        raise TranslateError(f'sndscript.py: Sound.export {where}: `{ast.unparse(e)}` is not an operator stack of the sound')
+    # ---- the force flag: the attribute the constructor stores the parameter in that the reader passes `version == 2` to
+    ctor, params = info['ctor'], info['params']
+    locals_r: dict[str, ast.AST] = {}
+    for n in ast.walk(parse_one):
+        if isinstance(n, ast.Assign) and len(n.targets) == 1 and isinstance(n.targets[0], ast.Name):
+            locals_r[n.targets[0].id] = n.value if n.targets[0].id not in locals_r else None
+    force_param = None
+    reader_force_ok = False
+    for p, a in list(zip(params, ctor.args)) + [(k.arg, k.value) for k in ctor.keywords]:
+        if isinstance(a, ast.Compare) and len(a.ops) == 1 and isinstance(a.ops[0], ast.Eq) and isinstance(a.comparators[0], ast.Constant):
+            left = a.left
+            if isinstance(left, ast.Name) and locals_r.get(left.id) is not None:
+                left = locals_r[left.id]
+            if isinstance(left, ast.Call) and isinstance(left.func, ast.Attribute) and left.func.attr == 'int' and left.args \
+                    and isinstance(left.args[0], ast.Constant) and left.args[0].value == 'soundentry_version':
+                force_param = p
+                default = left.args[1].value if len(left.args) > 1 and isinstance(left.args[1], ast.Constant) else 0
+                reader_force_ok = a.comparators[0].value == 2 and default != 2
+    if force_param is None:
+        raise TranslateError('sndscript.py: Sound.parse_one: no constructor argument of the form `soundentry_version == N`')
+    force_attr = attr_of.get(force_param, force_param)
+    # ---- the reader builds the stacks only under `'operator_stacks' in sound_kv`, None otherwise
+    reader_block_ok = False
+    for n in ast.walk(parse_one):
+        if isinstance(n, ast.If) and info['read_assign'] is not None and any(x is info['read_assign'] for x in ast.walk(ast.Module(body=n.body, type_ignores=[]))):
+            t = n.test
+            if isinstance(t, ast.Compare) and len(t.ops) == 1 and isinstance(t.ops[0], ast.In) and isinstance(t.left, ast.Constant) \
+                    and t.left.value == 'operator_stacks':
+                none_targets: set[str] = set()
+                for o in n.orelse:
+                    if isinstance(o, ast.Assign) and isinstance(o.value, ast.Constant) and o.value.value is None:
+                        none_targets |= {x.id for x in o.targets if isinstance(x, ast.Name)}
+                reader_block_ok = none_targets == {ast.unparse(x) for x in info['read_assign'].targets[0].elts}
+    # ---- terms of a test, with locals of export inlined
+    locals_w: dict[str, ast.AST | None] = {}
+    for n in ast.walk(fn):
+        if isinstance(n, (ast.Assign, ast.AnnAssign)) and isinstance(n.targets[0] if isinstance(n, ast.Assign) else n.target, ast.Name):
+            nm = (n.targets[0] if isinstance(n, ast.Assign) else n.target).id
+            locals_w[nm] = n.value if nm not in locals_w else None
+        elif isinstance(n, (ast.For, ast.comprehension)):
+            for x in ast.walk(n.target):
+                if isinstance(x, ast.Name):
+                    locals_w[x.id] = None
+
+    def terms(e: ast.AST, where: str, depth: int = 0) -> list[str]:
+        if depth > 8:
+            raise TranslateError(f'sndscript.py: Sound.export {where}: test nested too deeply')
+        if isinstance(e, ast.BoolOp) and isinstance(e.op, ast.Or):
+            return [t for v in e.values for t in terms(v, where, depth + 1)]
+        if isinstance(e, ast.Call) and isinstance(e.func, ast.Name) and e.func.id == 'any' and len(e.args) == 1 and not e.keywords \
+                and isinstance(e.args[0], (ast.List, ast.Tuple)):
+            return [t for v in e.args[0].elts for t in terms(v, where, depth + 1)]
+        if isinstance(e, ast.Call) and isinstance(e.func, ast.Name) and e.func.id == 'bool' and len(e.args) == 1 and not e.keywords:
+            return terms(e.args[0], where, depth + 1)
+        if isinstance(e, ast.Name):
+            if locals_w.get(e.id) is None:
+                raise TranslateError(f'sndscript.py: Sound.export {where}: `{e.id}` is not a local assigned exactly once')
+            return terms(locals_w[e.id], where, depth + 1)
+        if _self_attr(e) == force_attr:
+            return ['GForce']
+        if isinstance(e, ast.Compare) and len(e.ops) == 1 and isinstance(e.comparators[0], ast.Constant):
+            op, c = e.ops[0], e.comparators[0].value
+            if isinstance(op, ast.IsNot) and c is None:
+                pub, s = stack_of(e.left, where)
+                return [f'GPresent {pub} {s}']
+            if isinstance(e.left, ast.Call) and isinstance(e.left.func, ast.Name) and e.left.func.id == 'len' and len(e.left.args) == 1 \
+                    and ((isinstance(op, (ast.Gt, ast.NotEq)) and c == 0) or (isinstance(op, ast.GtE) and c == 1)):
+                pub, s = stack_of(e.left.args[0], where)
+                if pub != 'true':
+                    raise TranslateError(f'sndscript.py: Sound.export {where}: len() of a field that may be None')
+                return [f'GTruthy {pub} {s}']
+        if isinstance(e, ast.UnaryOp) and isinstance(e.op, ast.Not) and isinstance(e.operand, ast.Compare) and len(e.operand.ops) == 1 \
+                and isinstance(e.operand.ops[0], ast.Is) and isinstance(e.operand.comparators[0], ast.Constant) and e.operand.comparators[0].value is None:
+            pub, s = stack_of(e.operand.left, where)
+            return [f'GPresent {pub} {s}']
+        if _self_attr(e) is not None:
+            pub, s = stack_of(e, where)
+            return [f'GTruthy {pub} {s}']
+        raise TranslateError(f'sndscript.py: Sound.export {where}: test `{ast.unparse(e)}` is not a disjunction of force flag / stack tests')
+    if len(info['v2_ifs']) != 1:
+        raise TranslateError(f'sndscript.py: Sound.export: {len(info["v2_ifs"])} tests guard the version-2 keys; expected one')
+    v2 = info['v2_ifs'][0]
+    test = v2.test
+    if isinstance(test, ast.UnaryOp) and isinstance(test.op, ast.Not):
+        raise TranslateError('sndscript.py: Sound.export: version-2 keys written when the test is false')
+    guard = terms(test, f'line {v2.lineno}')
+    all_text = ''.join(info['v2_text'])
+    writes_both = bool(re.search(r'soundentry_version\s+2\s', all_text)) and 'operator_stacks' in all_text
+    blocks = []
+    for name, g, src, line, in_v2 in info['blocks_ast']:
+        if not in_v2:
+            raise TranslateError(f'sndscript.py: Sound.export line {line}: stack block outside the operator_stacks block')
+        if name not in field_of_block:
+            raise TranslateError(f'sndscript.py: Sound.export line {line}: block `{name}` is not one the reader looks up')
+        gt = terms(g, f'line {line}')
+        if len(gt) != 1:
+            raise TranslateError(f'sndscript.py: Sound.export line {line}: stack block guarded by {len(gt)} tests')
+        pub, s = stack_of(src, f'line {line}')
+        blocks.append(f'mkW {stk_of_field[field_of_block[name]]} ({gt[0]}) {pub} {s}')
+    lines = [
+        f'Definition snd_v2_guard : list gterm := [{"; ".join(guard)}].   (* line {v2.lineno}: {ast.unparse(test)[:150]} *)',
+        f'Definition snd_stack_blocks : list wblock := [{"; ".join(blocks)}].',
+        f'Definition snd_v2_test_writes_version_2_and_the_stacks_block : bool := {str(writes_both).lower()}.',
+        f'Definition snd_reader_force_is_version_eq_2 : bool := {str(reader_force_ok).lower()}.',
+        f'Definition snd_reader_stacks_exist_iff_block_present : bool := {str(reader_block_ok).lower()}.',
+    ]
+    side = {'v2_guard': guard, 'stack_blocks': blocks, 'lazy_properties': {k: list(v) for k, v in props.items()}, 'force_attr': force_attr,
+            'stack_fields': fields, 'ctor_param_of_field': {attr_of.get(p, p): p for _, p in read}}
+    return lines, side
 
 
 def translate_text_writers() -> tuple[str, dict]:
@@ -1510,7 +1740,9 @@ def translate_text_writers() -> tuple[str, dict]:
     snd = _TextCensus('sndscript.py')
     snd.ann.setdefault('sounds', set()).add('list[str]')
     fn_snd = snd.walk('Sound.export')
-    written, read = _snd_stack_census(fn_snd, snd.funcs['Sound.parse_one'], snd.funcs['Sound.__init__'])
+    written, read, sinfo = _snd_stack_census(fn_snd, snd.funcs['Sound.parse_one'], snd.funcs['Sound.__init__'])
+    snd_cls = next(n for n in snd.tree.body if isinstance(n, ast.ClassDef) and n.name == 'Sound')
+    model_lines, model_side = _snd_stack_model(snd_cls, fn_snd, snd.funcs['Sound.parse_one'], sinfo)
     # ---- VMT
     vmt = _TextCensus('vmt.py')
     vmt.ann.setdefault('real_name', set()).add('str')
@@ -1537,7 +1769,7 @@ def translate_text_writers() -> tuple[str, dict]:
         '(* GENERATED by translate/c20_formats.py from sndscript.py (Sound.export, Sound.parse_one), vmt.py (Material.export, _write_block),',
         '   choreo.py (the export_text methods). Do not edit. *)',
         'From Coq Require Import NArith List.', 'Import ListNotations.',
-        'From SV Require Import Fmt.TextFields.',
+        'From SV Require Import Fmt.TextFields Fmt.SndStacks.',
         _coq_sites('snd_fields', snd.sites),
         _coq_sites('vmt_fields', vmt.sites),
         _coq_sites('cho_fields', cho.sites),
@@ -1545,10 +1777,11 @@ def translate_text_writers() -> tuple[str, dict]:
         + '; '.join(f'({cs(a)}, {cs(b)}, {cs(c)})' for a, b, c in written) + '].   (* block name, guarding attribute, serialised attribute *)',
         'Definition snd_stacks_read : list (list N * list N) := ['
         + '; '.join(f'({cs(a)}, {cs(b)})' for a, b in read) + '].   (* block name, attribute it is read into *)',
+        *model_lines,
         '',
     ]
     side = {'sndscript': [list(s) for s in snd.sites], 'vmt': [list(s) for s in vmt.sites], 'choreo': [list(s) for s in cho.sites],
-            'stacks_written': written, 'stacks_read': read,
+            'stacks_written': written, 'stacks_read': read, 'stack_model': model_side,
             'digests': {'Sound.export': ast_digest(fn_snd)}}
     return '\n'.join(lines), side
 
